@@ -102,20 +102,20 @@ Proof. exact: (@step_Pyy_unit F tr sq eg sqrt_ok n k s alpha beta kappa h y Rb c
 
 (* the whole step on a mixture: same components (mean, covariance) in the same order,
    the weights of the output object kept, same likelihood vector *)
-Theorem C05_step_equals_ukf (prev : members O n m) (pred corr_prev : mixture O n) :
+Theorem C05_step_equals_ukf (pred corr_prev : mixture O n) :
   (forall c, List.In c (mix_comps pred) -> psd (c.2 : 'M[F]_n)) ->
-  (sukf_correct w h y nz prev pred corr_prev).1 =
+  (sukf_correct w h y nz pred corr_prev).1 =
     (ukf_correct w h y (bdiag k Rb : M O m m) pred corr_prev).1 /\
-  sukf_likelihood nz (sukf_correct w h y nz prev pred corr_prev).2 =
+  sukf_likelihood nz (sukf_correct w h y nz pred corr_prev).2 =
     Some (List.map (@ukf_likelihood_comp O n m)
                    (ukf_correct w h y (bdiag k Rb : M O m m) pred corr_prev).2).
-Proof. exact: (@sukf_step_is_ukf F tr sq eg sqrt_ok n k s alpha beta kappa h y nz Rb s_gt0 c_gt0 wc0_ge0 Hnz spdRb sq_contract prev pred corr_prev). Qed.
+Proof. exact: (@sukf_step_is_ukf F tr sq eg sqrt_ok n k s alpha beta kappa h y nz Rb s_gt0 c_gt0 wc0_ge0 Hnz spdRb sq_contract pred corr_prev). Qed.
 
 (* (v) reduced constructor (one shared block) = full constructor with equal blocks:
    the whole step and the likelihood, for any weights, any h, no premise on R0 *)
-Theorem C05_reduced_eq_full (w' : utw O) (R0 : 'M[F]_s) prev (pred corr_prev : mixture O n) :
-  sukf_correct w' h y (@NoiseReduced O s m R0) prev pred corr_prev =
-  sukf_correct w' h y (@NoiseFull O s m (bdiag k (fun _ => R0))) prev pred corr_prev.
+Theorem C05_reduced_eq_full (w' : utw O) (R0 : 'M[F]_s) (pred corr_prev : mixture O n) :
+  sukf_correct w' h y (@NoiseReduced O s m R0) pred corr_prev =
+  sukf_correct w' h y (@NoiseFull O s m (bdiag k (fun _ => R0))) pred corr_prev.
 Proof. exact: sukf_correct_reduced. Qed.
 
 Theorem C05_reduced_eq_full_likelihood (R0 : 'M[F]_s) (mb : members O n m) :
@@ -126,15 +126,17 @@ Proof. exact: sukf_likelihood_reduced. Qed.
 End C05.
 
 (* (vi) a measurement size that is not a multiple of the block size: the output is
-   the predicted belief (components AND weights), the member state is untouched *)
+   the predicted belief (components AND weights), and no likelihood is available
+   afterwards, whatever an earlier step left behind (the step clears innovations_ first) *)
 Theorem C05_size_mismatch_identity (F : realFieldType) (tr : Transc F)
         (sq : forall n, 'M[F]_n -> 'M[F]_n) (eg : forall n, 'M[F]_n -> 'M[F]_(n,1))
         n m' s (w : utw (MxMat tr sq eg)) (h : M (MxMat tr sq eg) n 1 -> M (MxMat tr sq eg) m' 1)
-        (y : M (MxMat tr sq eg) m' 1) (nz : noise (MxMat tr sq eg) s m') prev
+        (y : M (MxMat tr sq eg) m' 1) (nz : noise (MxMat tr sq eg) s m')
         (pred corr_prev : mixture (MxMat tr sq eg) n) :
   Nat.modulo m' s <> 0%N ->
-  sukf_correct w h y nz prev pred corr_prev = (pred, prev).
-Proof. exact: sukf_size_mismatch. Qed.
+  sukf_correct w h y nz pred corr_prev = (pred, None) /\
+  sukf_likelihood nz (sukf_correct w h y nz pred corr_prev).2 = None.
+Proof. by move=> ne; rewrite sukf_size_mismatch. Qed.
 
 (* ---- non-vacuity ---- *)
 (* the diagonal blocks of bdiag are the given blocks (so "noise_blocks (NoiseFull R) Rb"
@@ -142,6 +144,10 @@ Proof. exact: sukf_size_mismatch. Qed.
 Example C05_bdiag_blocks (F : realFieldType) s k (Rb : nat -> 'M[F]_s) j : (j < k)%N ->
   dblk s j (bdiag k Rb) = Rb j.
 Proof. exact: dblk_bdiag. Qed.
+
+Example C05_bdiag_offdiag (F : realFieldType) s k (Rb : nat -> 'M[F]_s) a b : (0 < s)%N ->
+  (a %/ s != b %/ s)%N -> mx_get (bdiag k Rb) a b = 0.
+Proof. exact: bdiag_offdiag. Qed.
 
 Example C05_premises_satisfiable (F : realFieldType) s k :
   (forall j, (j < k)%N -> spd ((fun _ => 1%:M) j : 'M[F]_s)) /\ psd (1%:M : 'M[F]_s).
